@@ -1,5 +1,5 @@
 """C05 — every reply is the prescribed one, well-formed and correctly addressed."""
-from . import gwfam
+from . import gwfam, gw
 
 THEOREMS = ["MySensors.C05.value_request_reply", "MySensors.C05.unknown_gets_presentation_request",
             "MySensors.C05.requestPresentation_spec", "MySensors.C05.config_reply", "MySensors.C05.time_reply",
@@ -31,7 +31,7 @@ def carryable_only(rng, version, hist):
 
 CFG = {"quick": 300, "thorough": 10000, "lengths": [12, 25, 40], "malformed": 0.12,
        "bias": {"req": 2.5, "internal": 2, "idreq": 2, "clock": 3, "metric": 3, "ctl_set": 1.5},
-       "post": [carryable_only]}
+       "post": [gw.pending_pair_burst, carryable_only]}
 
 
 def relevant(hist, obs):
